@@ -15,10 +15,13 @@ Definition qdist2 (a b : qi) : Qc := qinorm2 (qisub a b).
 Definition qmax (x y : Qc) : Qc := if qc_leb x y then y else x.
 Definition scale2 (m n : nat) (A : fm (R:=qi)) : Qc :=
   fold_left (fun acc i => fold_left (fun acc j => qmax acc (qinorm2 (A i j))) (seq 0 n) acc) (seq 0 m) (Q2Qc 1).
-Definition close_mn (tol2 : Qc) (a : arr (R:=qi)) (m n : nat) (l : QM) : bool :=
+(* entry-wise mixed tolerance:  |a_ij - b_ij|^2 <= rel2 * |a_ij|^2 + abs2 * max(1, max |a|^2)  (a = the model's exact value).
+   The relative part keeps small entries of widely graded data visible; the absolute part (a multiple of the rounding unit of the
+   implementation's dtype times the size of the result) absorbs cancellation in dense factorisations. *)
+Definition close_mn (rel2 abs2 : Qc) (a : arr (R:=qi)) (m n : nat) (l : QM) : bool :=
   Nat.eqb (nr a) m && Nat.eqb (nc a) n &&
-  (let s := (tol2 * scale2 m n (dat a))%Qc in
-   forallb (fun i => forallb (fun j => qc_leb (qdist2 (dat a i j) (nth j (nth i l []) qi0)) s) (seq 0 n)) (seq 0 m)).
+  (let s := (abs2 * scale2 m n (dat a))%Qc in
+   forallb (fun i => forallb (fun j => qc_leb (qdist2 (dat a i j) (nth j (nth i l []) qi0)) (rel2 * qinorm2 (dat a i j) + s)%Qc) (seq 0 n)) (seq 0 m)).
 
 (* oracle tables: the matrices handed to LAPACK during the call and what it returned *)
 Definition mat_eqb (n : nat) (A : fm (R:=qi)) (l : QM) : bool :=
@@ -76,7 +79,7 @@ Record case := {
   crty : rty;
   cB : QM; cBL : QM;     (* right operand n x k, left operand k x n (exact) *)
   cdense : QM; cres : QM; cresl : QM;  (* inv(A,alg).to_dense(), inv(A,alg) @ B, BL @ inv(A,alg): the implementation's floats *)
-  ctol2 : Qc }.
+  ctol2 : Qc; cabs2 : Qc }.   (* squared relative / absolute tolerances *)
 Definition qinv (c : case) : ires (R:=qi) := inv (cflag c) (cfwd c) (lu_tab (clu c)) (chol_tab (cchol c)) (calg c) (ce c) (ca c).
 Definition qto_op (r : iop (R:=qi)) : qop := to_op (tsolve (R:=qi)) no_iter r.
 Definition check (c : case) : bool :=
@@ -89,9 +92,9 @@ Definition check (c : case) : bool :=
       (let o := qto_op r in
        wf o && Nat.eqb (fst (shape o)) n && Nat.eqb (snd (shape o)) n &&
        (if direct r && cnum c then
-          close_mn (ctol2 c) (matmat o (mkarr n n eye)) n n (cdense c)
-          && close_mn (ctol2 c) (matmat o (qof_list_mn n (ck c) (cB c))) n (ck c) (cres c)
-          && close_mn (ctol2 c) (rmatmat o (qof_list_mn (ck c) n (cBL c))) (ck c) n (cresl c)
+          close_mn (ctol2 c) (cabs2 c) (matmat o (mkarr n n eye)) n n (cdense c)
+          && close_mn (ctol2 c) (cabs2 c) (matmat o (qof_list_mn n (ck c) (cB c))) n (ck c) (cres c)
+          && close_mn (ctol2 c) (cabs2 c) (rmatmat o (qof_list_mn (ck c) n (cBL c))) (ck c) n (cresl c)
         else true))
   end.
 Fixpoint failing {A} (chk : A -> bool) (i : nat) (cs : list A) : list nat :=
